@@ -43,6 +43,14 @@ def gen_chain(rng, sc, length):
             spec, tags = sc.mutate(rng, spec, 1, kinds=list(sc.SHARED_MUTATIONS))
             chain.append((sc.render(spec), list(tags)))
             continue
+        if rng.random() < 0.2:
+            # cross-module renames / re-parenting of a type that owns an overload away from the providing base
+            nspec, tags = sc.mutate(rng, spec, 1, kinds=rng.choice(
+                [['move_type', 'rename_module', 'move_other'], ['reparent_overload_away']]))
+            if tags:
+                spec = nspec
+                chain.append((sc.render(spec), list(tags)))
+                continue
         if rng.random() < 0.08:
             spec, tags = sc.gen_spec(rng, rng.choice([2, 3])), ['unrelated']
         else:
@@ -143,7 +151,12 @@ def run_corpus(ctx: core.Ctx, eng: c02.Engine) -> dict:
     path = os.path.join(core.VERIF, 'corpus', 'C10', 'findings.json')
     res = {}
     if os.path.exists(path):
-        for case in json.load(open(path))['cases']:
+        cases = json.load(open(path))['cases']
+        if ctx.quick():
+            # quick: a third of the witness chains per run, rotating with the seed (C02 replays every witness as a
+            # pair on every run; thorough replays all chains)
+            cases = [c for i, c in enumerate(cases) if i % 3 == ctx.seed % 3]
+        for case in cases:
             rec = check_chain(ctx, eng, [(s, []) for s in case['chain']], stream='corpus', fixed_key=case['key'])
             res[case['key']] = rec['outcome'] + (' -> ' + ','.join(rec['causes']) if rec.get('causes') else '')
         ctx.log('corpus:', res)
@@ -156,12 +169,13 @@ def run_chains(ctx: core.Ctx, eng: c02.Engine, n_chains: int, deadline_s: float 
     sc = eng.sc
     t0 = time.time()
     recs = []
-    corpus = run_corpus(ctx, eng)
-    for ch in c02.SHARED_CHAINS:          # deterministic: shape created in step 1, pointer dropped from one parent later
-        recs.append(check_chain(ctx, eng, [(s, ['shared-chain']) for s in ch], stream='shared-chains'))
-    for _ in range(ctx.budget(3, 60)):
+    for group, chains in c02.REGRESSION_CHAINS.items():     # deterministic witness shapes, always first
+        for ch in chains:
+            recs.append(check_chain(ctx, eng, [(s, [group + '-chain']) for s in ch], stream=group + '-chains'))
+    for _ in range(ctx.budget(2, 60)):
         recs.append(check_chain(ctx, eng, gen_rebase_chain(ctx.rng, ctx.rng.choice([3, 4])), stream='rebase-chains'))
-    deadline = time.time() + (deadline_s if deadline_s is not None else ctx.budget(100, 1500))
+    corpus = run_corpus(ctx, eng)
+    deadline = time.time() + (deadline_s if deadline_s is not None else ctx.budget(70, 1500))
     for i in range(n_chains):
         if time.time() > deadline and i >= ctx.budget(4, 60):
             ctx.notes.append(f'stopped after {i} of {n_chains} random chains (time budget)')
